@@ -79,3 +79,10 @@ def extra_checks(ctx):
 def search_failing_input(ctx):
     found, _n, _k = run(ctx, 13, "quick")
     return found
+
+
+def replay(case):
+    """Re-run the numeric statement oracle on the input stored in a replay file."""
+    import random
+    return (numeric.c12_oracle(case['N'], case['SR'], case['kind'], case['f_cut'], case['order'], case['DCgain'], inverse=case['inverse'])
+            or numeric.c12_custom_oracle(case['N'], case['SR'], random.Random(0)) or numeric.c12_linearity(case['N'], case['SR'], random.Random(0)))
